@@ -1210,3 +1210,10 @@ def np_isreal(interp, a):
     if is_sym(a) or isinstance(a, fractions.Fraction):
         return True
     return np.isreal(a)
+
+
+# matrices (C17)
+import scipy.linalg as _sl
+from . import matrix as _matrix
+_MODELS[_sl.inv] = _matrix.inv_model
+_MODELS[np.linalg.inv] = _matrix.inv_model
